@@ -236,6 +236,9 @@ func Exec(s core.Schedule) *core.Outcome {
 			w.evalImages(r, 1)
 		}
 	}
+	if out.Violation == nil && w.deferred != nil {
+		out.Violation = w.deferred
+	}
 	w.classify(sc)
 	out.Digest = w.dig.Sum()
 	out.Steps = len(sc.Steps)
